@@ -21,7 +21,7 @@ fn opt_char(c: Option<char>) -> String {
     }
 }
 
-fn run_op(q: &BufferQueue, op: &str) -> String {
+fn run_op(q: &BufferQueue, aux: &std::cell::RefCell<BufferQueue>, op: &str) -> String {
     let parts: Vec<&str> = op.trim().split(' ').collect();
     match parts.as_slice() {
         ["pb", rest @ ..] => match parse_string(&rest.join(" ")) {
@@ -63,6 +63,32 @@ fn run_op(q: &BufferQueue, op: &str) -> String {
             },
             None => "bad-op".into(),
         },
+        // --- the second queue (`document.write`-style hand-over): push to it, swap, replace
+        ["apb", rest @ ..] => match parse_string(&rest.join(" ")) {
+            Some(s) => {
+                aux.borrow().push_back(StrTendril::from_slice(&s));
+                "ok".into()
+            },
+            None => "bad-op".into(),
+        },
+        ["sw"] => {
+            q.swap_with(&aux.borrow());
+            "ok".into()
+        },
+        ["rw"] => {
+            let other = aux.replace(BufferQueue::default());
+            q.replace_with(other);
+            "ok".into()
+        },
+        ["pp"] => match q.pop_front() {
+            None => "pp=-".into(),
+            Some(t) => format!("pp={}", show_str(&t)),
+        },
+        ["ie"] => format!("ie={}", q.is_empty() as u8),
+        ["fc"] => match q.peek_front_chunk_mut() {
+            None => "fc=-".into(),
+            Some(t) => format!("fc={}", show_str(&t)),
+        },
         _ => "bad-op".into(),
     }
 }
@@ -72,11 +98,17 @@ pub fn run(fields: &[&str]) -> String {
         return "bad-case".into();
     }
     let q = BufferQueue::default();
+    let aux = std::cell::RefCell::new(BufferQueue::default());
     let mut outs = vec![];
+    let mut used_aux = false;
     for op in fields[0].split(';') {
-        let r = catch_unwind(AssertUnwindSafe(|| run_op(&q, op)));
+        used_aux |= op.starts_with("apb") || op == "sw" || op == "rw";
+        let r = catch_unwind(AssertUnwindSafe(|| run_op(&q, &aux, op)));
         outs.push(r.unwrap_or_else(|_| "panic".into()));
     }
     outs.push(show_queue(&q));
+    if used_aux {
+        outs.push(show_queue(&aux.borrow()).replacen("Q=", "A=", 1));
+    }
     outs.join(";")
 }
